@@ -2698,6 +2698,31 @@ def vec_retain(m, a, c):
     return UNIT
 
 
+@model("Vec::dedup_by")
+def vec_dedup_by(m, a, c):
+    # same_bucket(&mut current, &mut last_kept): true removes `current` (std's documented order of the two arguments)
+    v = V(a[0]).v
+    keep = []
+    for i in range(len(v)):
+        if keep and m.branch_bool(m.prog.call_closure(m, Ptr([a[1]], 0), [Ptr(v, i), Ptr(keep, len(keep) - 1)]), "Vec::dedup_by"):
+            continue
+        keep.append(v[i])
+    v[:] = keep
+    return UNIT
+
+
+@model("Vec::dedup")
+def vec_dedup(m, a, c):
+    v = V(a[0]).v
+    keep = []
+    for i in range(len(v)):
+        if keep and m.branch_bool(val_eq(v[i], keep[-1]), "Vec::dedup"):
+            continue
+        keep.append(v[i])
+    v[:] = keep
+    return UNIT
+
+
 @model("Vec::extend", "<Vec as Extend>::extend")
 def vec_extend(m, a, c):
     v = V(a[0]).v
